@@ -31,14 +31,6 @@ OBS += [
  Ob(['C03', 'C10', 'C11', 'C15', 'C16'], 'skip_array_step', 'jd_cont', 'harness/jd_cont.c', 'h_skip_array', defs=UC + ['NB=4'], unwind=7, fs='none', cap=300, hunwind=12,
     desc='skipArray one activation, children cut', bound="'[' + all continuations of 4 bytes, all limits, all child behaviours (<= 4 children)"),
 ]
-OBJ = ['ARENA_N=5', 'ARENA_CHUNK=64', 'ARDUINOJSON_POOL_CAPACITY=4', 'ARDUINOJSON_INITIAL_POOL_COUNT=2']
-UNITS += [Unit('jd_obj', 'wrappers/jd.cpp', defs=OBJ, cuts={'CUT_PV_ALL': r'12parseVariantINS1_14AllowAllFilterE', 'CUT_SV': r'11skipVariantE', 'CUT_PKEY': r'JsonDeserializerI7VReaderE8parseKeyEv',
-    'CUT_COLL_CLEAR': r'14CollectionData5clearEPNS1_15ResourceManagerE$'})]
-UO = ['UNIT_H="jd_obj.h"']
-for sk, what in [(0, 'first key 3 bytes, second key 1 byte'), (1, 'first key 1 byte, second key 3 bytes'), (2, 'both keys 2 bytes'), (3, 'both keys 3 bytes')]:
-    OBS.append(Ob(['C01', 'C14'], 'dupkey_sk%d' % sk, 'jd_obj', 'harness/jd_obj.c', 'h_dupkey', defs=UO + ['SK=%d' % sk], unwind=6, cap=300, hunwind=24, fs=512,
-        desc='parseObject duplicate-key rule, %s: real ObjectData/StringPool/StringBuilder, key scanner and children cut' % what,
-        bound='ALL byte values (NUL included) for every key byte; token skeleton {K:v,K:v}; arena allocator'))
 UNITS += [Unit('jd_top', 'wrappers/jd.cpp', defs=SM, cuts={'CUT_PV_ALL': r'12parseVariantINS1_14AllowAllFilterE'})]
 UT = ['UNIT_H="jd_top.h"']
 OBS += [
